@@ -114,7 +114,7 @@ fn recognised_codes() -> Vec<(u8, Vec<u8>)> {
 
 pub fn run(ctx: &Ctx) -> Outcome {
     let codes = recognised_codes();
-    let n_random = ctx.size(2_000_000, 10_000_000);
+    let n_random = ctx.size(2_000_000, 200_000_000);
     let rand_shards = 32usize;
     let mut report = run_sharded(ctx, 256 + 256 + rand_shards, |shard, rep| {
         if shard < 256 {
